@@ -91,6 +91,18 @@ def cases(tier, rng, schema, feats):
         add("dec2", _c14.mc([_c14.entry(-7, "public-key")], ["tpm"] * count).hex(), tag="long")
         add("dec2", (b"\x02" + cbor.enc(cbor.M([(1, "example.com"), (2, b"\x22" * 32), (9, ["android-key"] * count)]))).hex(), tag="long")
         add("dec2", _c14.mc([_c14.entry(-8, "public-key")] * count, ["packed"] * count).hex(), tag="long")
+    # every sequence of length <= 5 over {ES256, EdDSA, unsupported, unknown type} for the filtered algorithm list and over
+    # {packed, none, unknown} for the attestation-format list: internal assumptions about which entries can overflow the
+    # result vector (duplicates, order) are exercised in every arrangement
+    import itertools
+    alpha = [_c14.entry(-7, "public-key"), _c14.entry(-8, "public-key"), _c14.entry(-257, "public-key"), _c14.entry(-7, "other")]
+    for k in range(0, 6 if tier != "quick" else 5):
+        for seq in itertools.product(range(4), repeat=k):
+            add("dec2", _c14.mc([alpha[j] for j in seq]).hex(), tag="seq")
+    falpha = ["packed", "none", "tpm"]
+    for k in range(0, 6):
+        for seq in itertools.product(range(3), repeat=k):
+            add("dec2", _c14.mc([alpha[0]], [falpha[j] for j in seq]).hex(), tag="seq")
     return out
 
 
